@@ -234,18 +234,33 @@ def sched_scenarios(tier, runs=None):
 # ----------------------------------------------------------------------------------------- listener (Accept / Expect / Close)
 LISTEN_INVS = ["C06_TakeOver", "C06_NoStaleEntry", "C06_SessionOnce", "C06_Outcome", "C06_NoPanic", "C06_ExpectGetsItsSession", "C06_ListenNoStall",
                "C15_OpenIffAccepted"]
-LISTEN_DEVS = [("ExpectDeletesForeignEntry", "C06_TakeOver"), ("ExpectDeletesForeignEntry", "C06_ExpectGetsItsSession"),
-               ("ExpectLeavesEntry", "C06_NoStaleEntry"), ("ExpectLeavesEntry", "C06_ListenNoStall"),
-               ("CloseClosesQueue", "C06_NoPanic"), ("HandOverKeepsEntry", "C06_NoStaleEntry")]
+# two served sessions sharing one Handler: Accept on each, Close of each, Handler.Listen for the second, an open request to each
+LISTEN_TWO = dict(x="{}", a='{"a1", "a2"}', k='{"c1", "c2"}', lc='{"l1"}', o='{"o1", "o2"}', p="{}", lsn='{"b", "c"}', cl="CL2", linit="LInit2")
+# (deviation, the invariant it must break, the bounds of that run)
+LISTEN_DEVS = [("ExpectDeletesForeignEntry", "C06_TakeOver", {}), ("ExpectDeletesForeignEntry", "C06_ExpectGetsItsSession", {}),
+               ("ExpectLeavesEntry", "C06_NoStaleEntry", {}), ("ExpectLeavesEntry", "C06_ListenNoStall", {}),
+               ("CloseClosesQueue", "C06_NoPanic", {}), ("HandOverKeepsEntry", "C06_NoStaleEntry", {}),
+               # Close called twice and no open request at all: the only way to the panic is the second Close
+               ("CloseClosesQueue", "C06_NoPanic", dict(x="{}", k='{"c1", "c3"}', o="{}")),
+               # the handler of an open request keeps the Handler's table of listeners to itself while it waits for an
+               # acceptor: Listener.Close cannot take effect (one session), neither can Handler.Listen for another session
+               ("HandlerKeepsTableLocked", "C06_ListenNoStall", {}),
+               ("HandlerKeepsTableLocked", "C06_ListenNoStall", dict(LISTEN_TWO, k="{}")),
+               ("AnyListenerTakes", "C06_SessionOnce", LISTEN_TWO)]
 
 LISTEN_MC_CFG = """CONSTANTS
   XCalls = %(x)s
   ACalls = %(a)s
+  KCalls = %(k)s
+  LCalls = %(lc)s
   Opens = %(o)s
   Pings = %(p)s
+  Lsn = %(lsn)s
   Dev = %(dev)s
   XKey <- XKey1
   OKey <- OKey1
+  CL <- %(cl)s
+  LInit <- %(linit)s
   MaxEnv = %(env)d
 SPECIFICATION MCSpec
 %(props)s
@@ -254,12 +269,17 @@ CHECK_DEADLOCK FALSE
 
 LISTEN_TR_CFG = """CONSTANTS
   XCalls = {"x1", "x2", "x3"}
-  ACalls = {"a1", "a2", "aL"}
+  ACalls = {"a1", "a2", "aLb", "aLc"}
+  KCalls = {"c1", "c2", "c3", "cEb", "cEc"}
+  LCalls = {"l1", "l2"}
   Opens = {"o1", "o2"}
   Pings = {"p1"}
+  Lsn = {"b", "c"}
   Dev = {}
   XKey <- NoKey
   OKey <- NoKey
+  CL <- NoKey
+  LInit <- NoKey
   MaxEnv = 0
 SPECIFICATION TSpec
 CONSTRAINT HW
@@ -268,18 +288,23 @@ CHECK_DEADLOCK FALSE
 """
 
 
-def listen_mc_cfg(x='{"x1", "x2"}', a='{"a1"}', o='{"o1"}', p='{"p1"}', env=7, dev="{}", props=None):
+def listen_mc_cfg(x='{"x1", "x2"}', a='{"a1"}', k='{"c1"}', lc="{}", o='{"o1"}', p='{"p1"}', lsn='{"b"}', cl="CLb", linit="LInitAny", env=7, dev="{}",
+                  props=None):
     props = props if props is not None else "\n".join("INVARIANT " + i for i in LISTEN_INVS)
-    return LISTEN_MC_CFG % dict(x=x, a=a, o=o, p=p, env=env, dev=dev, props=props)
+    return LISTEN_MC_CFG % dict(x=x, a=a, k=k, lc=lc, o=o, p=p, lsn=lsn, cl=cl, linit=linit, env=env, dev=dev, props=props)
 
 
 def listen_design_checks(ctx, workers=None):
     """pipeline A of the accepting side's rendezvous (IBBListen.tla): take-over (two Expect calls for one session), two
-    sessions, Accept, Close, cancellation anywhere; every named deviation must break its invariant"""
+    session ids, Accept, Close (call / effect / return, once or twice, at any time), Accept and Expect after Close, two
+    sessions of the application sharing one Handler with Handler.Listen for the second, cancellation anywhere; every named
+    deviation must break its invariant"""
     w = workers or max(2, verif.NCPU // 2)
     quick = ctx.tier == "quick"
     runs = [("takeover", dict(env=7 if quick else 9)),
-            ("twokeys", dict(x='{"x1", "x3"}', o='{"o1", "o2"}', p="{}", env=7 if quick else 8))]
+            ("twokeys", dict(x='{"x1", "x3"}', o='{"o1", "o2"}', p="{}", env=7 if quick else 8)),
+            ("closetwice", dict(x='{"x1"}', k='{"c1", "c3"}', p="{}", env=7) if quick else dict(x='{"x1"}', k='{"c1", "c3"}', env=10)),
+            ("twosessions", dict(LISTEN_TWO, env=7) if quick else dict(LISTEN_TWO, x='{"x1"}', env=8))]
     if not quick:
         runs.append(("all", dict(x='{"x1", "x2", "x3"}', o='{"o1", "o2"}', env=8)))
     st = gen = 0
@@ -287,15 +312,17 @@ def listen_design_checks(ctx, workers=None):
         r = ctx.model_check("MCIBBListen", listen_mc_cfg(**kw), LISTEN_INVS, name="MCIBBListen_" + name, workers=w, timeout=1500)
         st += r.distinct
         gen += r.generated
-    for dev, prop in LISTEN_DEVS:
-        r = ctx.tlc("MCIBBListen", listen_mc_cfg(p="{}", dev='{"%s"}' % dev, props="INVARIANT " + prop), name="MCIBBListen_dev", workers=2, timeout=600)
+    for dev, prop, kw in LISTEN_DEVS:
+        r = ctx.tlc("MCIBBListen", listen_mc_cfg(**dict(dict(kw, p="{}"), dev='{"%s"}' % dev, props="INVARIANT " + prop)), name="MCIBBListen_dev", workers=2, timeout=600)
         if prop not in r.violated:
             raise verif.Undecided("listener design check is vacuous: deviation %s does not violate %s (%s)" % (dev, prop, r.violated))
     return {"listen_states": st, "listen_transitions": gen, "listen_deviations_detected": len(LISTEN_DEVS)}
 
 
-def lop(o, c="", sid="", frm=""):
-    d = {"op": o, "e": "b", "n": 0}
+def lop(o, c="", sid="", frm="", e="b"):
+    """one operation of a listener scenario; e: the accepting session it belongs to (b, or c: the second session of the
+    application, sharing b's Handler; open / ping are performed by the peer of that session)"""
+    d = {"op": o, "e": e, "n": 0}
     if c:
         d["c"] = c
     if sid:
@@ -305,19 +332,21 @@ def lop(o, c="", sid="", frm=""):
     return d
 
 
-def lscen(name, procs, listen=True, maxpre=2, maxruns=0):
+def lscen(name, procs, listen=True, maxpre=2, maxruns=0, pair2=False, listen2=False):
     return {"name": name, "mode": "listen", "bs": 0, "carrier": "iq", "maxbuf": {}, "listen": listen, "preopen": False, "sched": True,
-            "procs": [{"name": n, "ops": o} for n, o in procs], "maxpre": maxpre, "maxruns": maxruns}
+            "procs": [{"name": n, "ops": o} for n, o in procs], "maxpre": maxpre, "maxruns": maxruns, "pair2": pair2, "listen2": listen2}
 
 
 def listen_scenarios(tier, runs=None):
-    """Accept / Expect / Listener.Close against real open requests.  Proc names are chosen so that the first (non-pre-empting,
-    alphabetical) schedule of each scenario is the documented sequence; the exploration then moves the cancellation, the
-    second Expect, the open request and the Close to every other place (pre-emption bounded)."""
+    """Handler.Listen / Accept / Expect / Listener.Close against real open requests.  Proc names are chosen so that the first
+    (non-pre-empting, alphabetical) schedule of each scenario is the documented sequence; the exploration then moves the
+    cancellation, the second Expect, the open request, the Close and the Listen to every other place (pre-emption bounded)."""
     mr = runs or (1500 if tier == "thorough" else 100)
     mp = 3 if tier == "thorough" else 2
-    X = lambda c, sid, frm="": lop("expect", c, sid, frm)
-    O = lambda c, sid: lop("open", c, sid)
+    X = lambda c, sid, frm="", e="b": lop("expect", c, sid, frm, e)
+    O = lambda c, sid, e="b": lop("open", c, sid, e=e)
+    A = lambda c, e="b": lop("accept", c, e=e)
+    K = lambda c, e="b": lop("lclose", c, e=e)
     out = [
         # the documented take-over: the second Expect for a session cancels the first and takes over; then the session is opened
         lscen("takeover", [("e1", [X("x1", "k1")]), ("e2", [X("x2", "k1")]), ("o", [O("o1", "k1"), lop("ping", "p1")])]),
@@ -341,10 +370,35 @@ def listen_scenarios(tier, runs=None):
         lscen("lclose-pending", [("o", [O("o1", "k1")]), ("x", [lop("lclose")]), ("y", [lop("ping", "p1")])]),
         lscen("lclose-expect", [("e1", [X("x1", "k1")]), ("l", [lop("lclose")]), ("o", [O("o1", "k1")])]),
         lscen("nolistener", [("o", [O("o1", "k1"), lop("ping", "p1")])], listen=False),
+        # --- what else the application may do with the accepting-side API
+        # Close twice: one after the other, and two goroutines at once, with a pending Accept / a pending session
+        lscen("lclose-twice", [("f", [A("a1")]), ("l", [K("c1"), K("c3")]), ("o", [O("o1", "k1")])]),
+        lscen("lclose-both", [("l", [K("c1")]), ("m", [K("c3")]), ("o", [O("o1", "k1")]), ("y", [lop("ping", "p1")])]),
+        # Accept / Expect on a listener that is closed already (or is being closed)
+        lscen("accept-after-close", [("l", [K("c1"), A("a1")]), ("o", [O("o1", "k1")])]),
+        lscen("expect-after-close", [("l", [K("c1"), X("x1", "k1")]), ("o", [O("o1", "k1")])]),
+        # Expect for a session id that is open already (it was taken by Accept); the peer then opens that id once more
+        lscen("expect-late", [("f", [A("a1"), X("x1", "k1")]), ("o", [O("o1", "k1")])]),
+        lscen("expect-late-reopen", [("f", [A("a1"), X("x1", "k1")]), ("o", [O("o1", "k1"), O("o2", "k1")])]),
+        # Handler.Listen for a session that has a listener returns it
+        lscen("listen-again", [("l", [lop("listen", "l1"), A("a1")]), ("o", [O("o1", "k1")])]),
+        # a second session of the application on the same Handler: Handler.Listen for it while an open request to the
+        # first session waits for an acceptor; its own open request goes to its own listener
+        lscen("listen-second", [("l", [lop("listen", "l1", e="c"), A("a2", "c")]), ("o", [O("o1", "k1")]), ("p", [O("o2", "k2", "c")])], pair2=True),
+        # two listeners on one Handler: the same session id opened on both sessions, each goes to its own listener
+        lscen("twolisteners", [("f", [A("a1")]), ("g", [A("a2", "c")]), ("o", [O("o1", "k1")]), ("p", [O("o2", "k1", "c")])], pair2=True, listen2=True),
+        # ... expectations for the same (from, sid) on both listeners: the session goes to the one of the session it came in on
+        lscen("twolisteners-expect", [("e1", [X("x1", "k1")]), ("e2", [X("x3", "k1", e="c")]), ("o", [O("o1", "k1", "c")])], pair2=True, listen2=True),
+        # ... closing one listener leaves the other one alone
+        lscen("twolisteners-close", [("g", [A("a2", "c")]), ("l", [K("c1")]), ("o", [O("o1", "k1")]), ("p", [O("o2", "k2", "c")])], pair2=True, listen2=True),
+        # ... an unaccepted session waits on each serve loop; one listener is closed; the first session still answers
+        lscen("twolisteners-pending", [("o", [O("o1", "k1")]), ("p", [O("o2", "k2", "c")]), ("x", [K("c2", "c")]), ("y", [lop("ping", "p1")])], pair2=True, listen2=True),
     ]
     for i, s in enumerate(out):
         s["name"] = "%s#L%d" % (s["name"], i)
-        s["maxruns"], s["maxpre"] = mr, mp
+        # thorough: the scenarios added in session 4 (index >= 14) get 600 schedules each, the older ones 1000 (was 1500 for 14
+        # scenarios; 26 scenarios now, the wall time of the tier is bounded)
+        s["maxruns"], s["maxpre"] = (mr if runs or tier != "thorough" else (1000 if i < 14 else 600)), mp
     return out
 
 
@@ -363,9 +417,12 @@ def validate_listen(ctx, trace, timeout=1200):
 def listen_describe(ev, trace=None):
     k = ev.get("ev") if ev else None
     if k == "stuck":
-        return ("permanent stall at the accepting side of an in-band bytestream: every goroutine is blocked, the serve loop is %s and these calls are waiting "
+        srv = ev.get("serving")
+        inside = [e for e in sorted(srv) if srv[e]] if isinstance(srv, dict) else (["b"] if srv else [])
+        return ("permanent stall at the accepting side of an in-band bytestream: every goroutine is blocked, %s and these calls are waiting "
                 "although nothing the application or the peer still owes could end the wait: %s (%s)" % (
-                    "inside the open handler" if ev.get("serving") else "reading", json.dumps(ev.get("blocked")), ev.get("status")))
+                    ("the serve loop of session %s is inside the open handler" % " and ".join(inside)) if inside else "the serve loops are reading",
+                    json.dumps(ev.get("blocked")), ev.get("status")))
     if k == "panic":
         return "ibb listener code panicked in %s: %s" % (ev.get("in"), ev.get("what"))
     if k == "expect_ret":
@@ -378,6 +435,10 @@ def listen_describe(ev, trace=None):
         return "the open request %s was answered with %s %s, which the state of the listener does not allow (accepted without a taker / refused with one)" % (ev.get("c"), ev.get("res"), ev.get("cond"))
     if k == "serve_ret":
         return "the serve loop of endpoint %s ended (%s) while handling an open request" % (ev.get("e"), ev.get("err"))
+    if k in ("lclose_call", "lclose_ret"):
+        return "Listener.Close call %s: %s is not allowed by IBBListen.tla in this state" % (ev.get("c"), k)
+    if k in ("listen_call", "listen_ret"):
+        return "Handler.Listen call %s: %s (%s) is not allowed by IBBListen.tla in this state" % (ev.get("c"), k, "a listener, the same as before" if ev.get("ok", True) else "no listener, or another one than the session already had")
     if k == "end":
         return "at the end of the run (every caller gone, a late Accept supplied, the listener closed) a call has not returned or a request was never handled"
     return "listener event %s is not allowed by IBBListen.tla" % json.dumps(ev)[:200]
@@ -387,25 +448,58 @@ def run_listen_part(ctx, tag, runs=None, case=None):
     """pipelines B/C of the accepting side: explore the listener scenarios on the real code, validate every distinct trace
     against TrIBBListen.tla.  Returns (rejected, traces-by-number, meta, driver summary, TLC result)."""
     scen = [case["scenario"]] if case else listen_scenarios(ctx.tier, runs)
-    files, summ = run_driver(ctx, scen, tag, shards=min(max(2, verif.NCPU // 2), len(scen)))
+    files, summ = run_driver(ctx, scen, tag, shards=min(max(2, verif.NCPU // 2 if ctx.tier != "thorough" else verif.NCPU - 3), len(scen)))
     tr, meta = merge_traces(ctx, files, "ibb-%s-trace.ndjson" % tag)
     rej, r = validate_listen(ctx, tr)
     trs = verif.split_traces(verif.read_ndjson(tr)) if rej else {}
     return rej, trs, meta, summ, r, tr
 
 
+_CONFIRM = [0]
+
+
+def confirm_stall(ctx, sc, ev):
+    """A `stuck` state (every goroutine blocked, judged illegitimate by the specification) is reported only if the SAME
+    schedule (scenario + choices) ends in a rejected `stuck` state again.  The scheduler recognises "everybody is blocked" by
+    polling goroutine wait states; on a machine at load 300+ with the OOM killer at work that produced one `stuck` event
+    that three replays of the same schedule did not reproduce (DESIGN 10.4, lesson 6: an unreproduced stall is a note, never
+    a verdict).  A genuine stall is a property of the schedule and comes back.  Up to three re-runs; other rejected events
+    (panic, wrong outcome, wrong byte) are facts recorded by the driver and need no confirmation."""
+    if (ev or {}).get("ev") != "stuck" or not sc.get("sched") or getattr(ctx, "replay", None):
+        return True
+    listen = sc.get("mode") == "listen"
+    for _ in range(3):
+        _CONFIRM[0] += 1
+        tag = "confirm%d" % _CONFIRM[0]
+        files, _ = run_driver(ctx, [sc], tag, shards=1)
+        tr, _m = merge_traces(ctx, files, "ibb-%s-trace.ndjson" % tag)
+        rej, _r = validate_listen(ctx, tr) if listen else validate(ctx, tr)
+        if rej:
+            return True      # the same schedule is rejected again (at the stuck state or at another event)
+    ctx.notes.append("unreproduced stall (not reported): scenario %s choices %s: the recorded run ended with every goroutine blocked (%s), three re-runs of "
+                     "the same schedule were accepted" % (sc.get("name"), sc.get("choices"), (ev or {}).get("status")))
+    ctx.log("unreproduced stall in %s (choices %s): note, not a verdict" % (sc.get("name"), sc.get("choices")))
+    return False
+
+
 def report_listen(ctx, rej, trs, meta, classes=None):
-    """one violation per (scenario family, rejected event kind)"""
+    """one violation per (scenario family, rejected event kind); a `stuck` class is reported with its first schedule that
+    reproduces (confirm_stall)"""
     classes = classes if classes is not None else {}
+    tried = {}
     for t, hw in sorted(rej.items()):
         ev = [e for e in trs[t] if e["_line"] == hw]
         ev = ev[0] if ev else None
         key = "%s/%s" % (meta[t]["scenario"]["name"].split("#")[0], (ev or {}).get("ev"))
         classes[key] = classes.get(key, 0) + 1
-        if classes[key] > 1:
+        if tried.get(key, 0) < 0 or tried.get(key, 0) >= 2:
             continue
         sc = dict(meta[t]["scenario"])
         sc["choices"] = meta[t].get("choices") or []
+        if not confirm_stall(ctx, sc, ev):
+            tried[key] = tried.get(key, 0) + 1
+            continue
+        tried[key] = -1
         ctx.violation("%s [ibb listener scenario %s]" % (listen_describe(ev), sc["name"]),
                       {"family": "ibb", "scenario": sc, "choices": sc["choices"], "rejected_line": hw, "rejected_event": ev,
                        "trace": [{k: v for k, v in e.items() if k not in ("_line", "status")} for e in trs[t]][-120:]})
@@ -430,7 +524,7 @@ def listen_selftest(ctx, trace, meta):
     win = [e for e in base if e.get("ev") == "expect_ret" and e.get("out") == "stream"][0]
     pre = [e for e in base[:i + 1] if not (e.get("ev") == "expect_ret" and e.get("out") == "stream")]
     pending = [{"p": "o", "c": "o1", "in": "open"}, {"p": "e", "c": win["c"], "in": "expect"}]
-    m = pre + [{"ev": "stuck", "blocked": pending, "serving": True, "status": ""}, {"ev": "end"}]
+    m = pre + [{"ev": "stuck", "blocked": pending, "serving": {"b": True, "c": False}, "status": ""}, {"ev": "end"}]
     if not any(e.get("ev") == "expect_ret" and e.get("out") == "ctx" for e in pre):
         m = None
     if m:
@@ -453,6 +547,41 @@ def listen_selftest(ctx, trace, meta):
         if e.get("ev") == "expect_ret" and e.get("out") == "stream":
             e["key"] = ":k2"
     muts.append(("Expect returned another session", m))
+    # --- the Close / two-session dimension
+    def pick(prefix, pred):
+        for t, tr in sorted(trs.items()):
+            if meta[t]["scenario"]["name"].startswith(prefix + "#") and not any(e.get("ev") == "stuck" for e in tr) and pred(tr):
+                return [{k: v for k, v in e.items() if k != "_line"} for e in tr]
+        return None
+    # 5./6. a pending Accept ended by Close: Accept reports the closed listener before anybody closed it; Close never returns
+    b2 = pick("lclose-accept", lambda tr: any(e.get("ev") == "accept_ret" and e.get("out") == "closed" for e in tr)
+              and [e.get("ev") for e in tr].index("accept_call") < [e.get("ev") for e in tr].index("lclose_call"))
+    if b2:
+        m = [dict(e) for e in b2]
+        i = [k for k, e in enumerate(m) if e.get("ev") == "accept_ret"][0]
+        j = [k for k, e in enumerate(m) if e.get("ev") == "lclose_call"][0]
+        if i > j:
+            e = m.pop(i)
+            m.insert(j, e)
+            muts.append(("Accept returned 'closed listener' before Close was called", m))
+        cl = [e for e in b2 if e.get("ev") == "lclose_call"][0]
+        m = [dict(e) for e in b2 if e.get("ev") not in ("lclose_ret", "end")]
+        m += [{"ev": "stuck", "blocked": [{"p": "l", "c": cl["c"], "in": "lclose", "l": cl["l"]}], "serving": {"b": False, "c": False}, "status": ""}, {"ev": "end"}]
+        muts.append(("Listener.Close never returns", m))
+    # 7. two sessions on one Handler: the Accept of the second session's listener returns the session opened on the first
+    b3 = pick("twolisteners", lambda tr: sum(1 for e in tr if e.get("ev") == "accept_ret" and e.get("out") == "stream") == 2)
+    if b3:
+        m = [dict(e) for e in b3]
+        rets = [k for k, e in enumerate(m) if e.get("ev") == "accept_ret"]
+        first, second = m[rets[0]], m[rets[1]]
+        dl = [e["e"] for e in m[:rets[0]] if e.get("ev") == "deliver"]
+        calls = {e["c"]: e["l"] for e in m if e.get("ev") == "accept_call"}
+        # the first Accept to return comes back while only the OTHER session's open request has been delivered
+        if len(dl) == 1 and calls.get(first["c"]) == dl[0]:
+            first["c"], second["c"] = second["c"], first["c"]
+            muts.append(("Accept on one session's listener got the stream opened on the other session", m))
+    if not b2:
+        raise verif.Undecided("listener binding self-test: no accepted trace of a pending Accept ended by Close")
     p = ctx.path("listen-selftest.ndjson")
     line = 0
     with open(p, "w") as f:
@@ -617,7 +746,7 @@ def run_c06_part(ctx):
     jm = _bg(c06_design_checks, ctx)
     jlm = _bg(listen_design_checks, ctx, max(2, verif.NCPU // 4))
     cov = {}
-    classes, other = {}, 0
+    classes, other, tried = {}, 0, {}
     try:
         if jd:
             files, summ = jd()
@@ -632,10 +761,14 @@ def run_c06_part(ctx):
                     continue
                 key = "%s/%s" % (meta[t]["scenario"]["name"].split("#")[0], ev.get("ev"))
                 classes[key] = classes.get(key, 0) + 1
-                if classes[key] > 1:
+                if tried.get(key, 0) < 0 or tried.get(key, 0) >= 2:
                     continue
                 sc = dict(meta[t]["scenario"])
                 sc["choices"] = meta[t].get("choices") or []
+                if not confirm_stall(ctx, sc, ev):
+                    tried[key] = tried.get(key, 0) + 1
+                    continue
+                tried[key] = -1
                 ctx.violation("%s [ibb scenario %s, %s carrier]" % (c06_describe(ev), sc["name"], sc["carrier"]),
                               {"family": "ibb", "scenario": sc, "choices": sc["choices"], "rejected_line": hw, "rejected_event": ev,
                                "trace": [{k: v for k, v in e.items() if k != "_line"} for e in trs[t]][-120:]})
@@ -660,5 +793,5 @@ def run_c06_part(ctx):
         lcov = jlm()
     cov.update(lcov)
     cov.update({"ibb_states": a.distinct, "ibb_liveness_states": lv.distinct,
-                "ibb_rule": "schedules of ibb Open/Accept, Read, Write/Flush, Close at both ends against the two real serve loops (gates: read.wait, payload.signal, open.reply, close.claim hooks, transport reads and writes), and of Listener.Accept / Expect (take-over, cancellation before / while / after the open request, two sessions, a session that is never opened) / Close against real open requests with the environment escalation callers-go-away, late Accept, listener Close; pre-emption bounded depth-first enumeration"})
+                "ibb_rule": "schedules of ibb Open/Accept, Read, Write/Flush, Close at both ends against the two real serve loops (gates: read.wait, payload.signal, open.reply, close.claim hooks, transport reads and writes), and of Handler.Listen / Listener.Accept / Expect (take-over, cancellation before / while / after the open request, two session ids, a session that is never opened, a session id that is open already) / Close (with a pending Accept / session / Expect, twice, before Accept / Expect) against real open requests, on one and on two served sessions that share one Handler, with the environment escalation callers-go-away, late Accept, listener Close; pre-emption bounded depth-first enumeration"})
     return cov
